@@ -235,6 +235,31 @@ def validate(ctx):
     R.check(len(raising) == 1, rule, f'{B}._EllipticCurve.ecdh_shared_secret | rejects', 'an off-curve point raises', 'the validity test does not raise', p.loc(fn))
     inf = [n for n in walk_local(fn) if isinstance(n, ast.If) and 'infinite' in norm(n.test) and any(isinstance(x, ast.Raise) for x in n.body)]
     R.check(len(inf) == 1, rule, f'{B}._EllipticCurve.ecdh_shared_secret | infinity', 'a result at infinity raises', 'point at infinity is not rejected', p.loc(fn))
+    # the library back end: the library checks the curve equation itself but reduces coordinates >= p silently, so the
+    # exchange must be dominated by a range test of both coordinates against the P-256 prime (value from FIPS 186-4 D.1.2.3)
+    P256 = 0xFFFFFFFF00000001000000000000000000000000FFFFFFFFFFFFFFFFFFFFFFFF
+    ldh = p.find('bumble.crypto.cryptography.EccKey.dh')
+    lm = p.modules.get('bumble.crypto.cryptography')
+    if ldh is None or lm is None:
+        R.bad(rule, 'bumble.crypto.cryptography.EccKey.dh', 'anchor missing')
+    else:
+        consts = {dotted(n.targets[0]): const(n.value) for n in lm.tree.body if isinstance(n, ast.Assign) and len(n.targets) == 1 and is_const(n.value)}
+        ex = [c for c in calls_in(ldh) if call_attr(c) == 'exchange']
+        ranged = set()
+        for c in ex:
+            top = c
+            while getattr(top, '_parent', None) is not ldh:
+                top = top._parent
+            for s_ in ldh.body[:ldh.body.index(top)]:
+                if isinstance(s_, ast.If) and s_.body and isinstance(s_.body[-1], ast.Raise):
+                    for a in ast.walk(s_.test):
+                        if isinstance(a, ast.Compare) and len(a.ops) == 1 and isinstance(a.ops[0], (ast.GtE, ast.Gt)) and isinstance(a.left, ast.Name):
+                            bound = a.comparators[0]
+                            val = const(bound) if is_const(bound) else consts.get(dotted(bound))
+                            if val == P256 and isinstance(a.ops[0], ast.GtE):
+                                ranged.add(a.left.id)
+        R.check(len(ex) == 1 and {'x', 'y'} <= ranged, rule, 'bumble.crypto.cryptography.EccKey.dh | coordinate range', 'both coordinates are tested against the P-256 prime before the exchange; a larger value raises',
+                f'the library back end does not reject coordinates >= p (range-tested: {sorted(ranged)}): it reduces them and returns a shared secret where the built-in back end refuses the key', p.loc(ldh))
     # the library back end builds a validated public key
     cg = p.find('bumble.crypto.cryptography.EccKey.dh')
     R.check(cg is not None and 'ec.EllipticCurvePublicNumbers(x, y, ec.SECP256R1()).public_key()' in norm(cg), rule, 'bumble.crypto.cryptography.EccKey.dh', 'public numbers are turned into a (validated) public key on P-256', 'library back end no longer builds the public key through EllipticCurvePublicNumbers.public_key()', p.loc(cg) if cg else '')
